@@ -420,6 +420,16 @@ def run(ctx):
         if not same:
             ctx.violation('allocator-dependent-result', 'the same input gives `%s` on a fresh builder with a moving allocator and `%s` on the default builder (flags %d, root %s)' % (
                 ' '.join(a[:6]), ' '.join(b[:6]), fl, root), replay)
+    # ---- parser layer (Json/ParserModel.v, Properties_C04b): the generated table parsers' control flow as an interpreter; success =>
+    # well-typed build script => verifier model accepts; tied here to the C parsers on the fragment roots + its own schema
+    try:
+        from . import c04b_util
+        pm_cases = [(root, fl, fid, text, klass) for (klass, root, fl, fid, text) in cases if len(text) <= 5000]
+        if len(pm_cases) > (20000 if ctx.thorough else 2500):
+            pm_cases = ctx.rng.sample(pm_cases, 20000 if ctx.thorough else 2500)
+        ctx.cov['parser_model'] = c04b_util.c04_hook(ctx, H, pm_cases, own_suite_docs=(400 if ctx.thorough else 60))
+    except lib.CheckError:
+        raise
     stat = {'ok': 0, 'err': 0}
     valid_ok = valid_n = 0
     ub_seen = {}
